@@ -1556,6 +1556,13 @@ def m_option_is_some_and(I, args, callee):
     return closure_call(I, clo, [o.fields[0]])
 
 
+def m_option_or_else(I, args, callee):
+    o, clo = args
+    if o.variant in ('Some', 'Ok'):
+        return o
+    return closure_call(I, clo, [] if o.variant == 'None' else [o.fields[0]])
+
+
 def m_option_or(I, args, callee):
     return args[0] if args[0].variant == 'Some' else args[1]
 
@@ -1832,6 +1839,7 @@ MODELS = [
     (r'^(Option|Result)::<.*>::map_or::', m_option_map_or),
     (r'^(Option|Result)::<.*>::(is_some_and|is_ok_and)::', m_option_is_some_and),
     (r'^Option::<.*>::or$', m_option_or),
+    (r'^(Option|Result)::<.*>::or_else::', m_option_or_else),
     (r'^Option::<.*>::ok_or$', m_option_ok_or),
     (r'^Vec::<.*>::insert$', m_vec_insert),
     (r'^Vec::<.*>::remove$', m_vec_remove),
@@ -1910,7 +1918,7 @@ MODELS = [
     (r'^Vec::<.*>::resize$', m_vec_resize),
     (r'^std::vec::from_elem::', m_from_elem),
     (r'^Vec::<.*>::as_mut_slice$|^Vec::<.*>::as_slice$', m_deref_slice),
-    (r'^<(Vec<.*>|String) as Deref(Mut)?>::deref(_mut)?$', m_deref_slice),
+    (r'^<((std::vec::)?Vec<.*>|(std::string::)?String) as Deref(Mut)?>::deref(_mut)?$', m_deref_slice),
     (r'^(core::)?slice::<impl \[.*\]>::to_vec$', m_to_vec),
     (r'^(core::)?slice::<impl \[.*\]>::contains$', m_vec_contains),
     (r'^(core::)?slice::<impl \[.*\]>::iter(_mut)?$', m_slice_iter),
